@@ -116,6 +116,20 @@ def generic_merge_case(ctx, b, l, r, fam):
         guarded(ctx, 'apply_decisions', lambda: apply_decisions(b1, decs), {'base': b1, 'decisions': decs}, case)
 
 
+def reordered(dj):
+    """The same diff with the entries of every mapping-level diff in reverse order (plain JSON in, plain JSON out).  The diff format puts no order on
+    the entries of an object diff (patch accepts any order), so this is as valid an input as the one nbdime produced; sequence diffs keep their order."""
+    out = []
+    for e in dj:
+        e = dict(e)
+        if e.get('op') == 'patch':
+            e['diff'] = reordered(e['diff'])
+        out.append(e)
+    if out and all(isinstance(e['key'], str) for e in out):
+        out.reverse()
+    return out
+
+
 def nb_case(ctx, A, B, label):
     import nbdime
     from nbdime.prettyprint import pretty_print_notebook_diff, pretty_print_notebook
@@ -136,6 +150,17 @@ def nb_case(ctx, A, B, label):
             isolate.restore_path()
     cfg = pp_config(use_color=False)
     guarded(ctx, 'pretty_print_notebook', lambda: pretty_print_notebook(b, cfg), {'nb': b}, case, check_alias=False)
+    # the same diff as a caller other than nbdime's differ may hand it in: object-level entries in another order
+    from nbdime.diff_utils import to_diffentry_dicts
+    dj = json.loads(json.dumps(d))
+    rj = reordered(dj)
+    if rj != dj:
+        ctx.count('reordered_diffs')
+        d2 = to_diffentry_dicts(rj)
+        case2 = dict(case, reordered_diff=True)
+        cfg = pp_config(use_color=False)
+        guarded(ctx, 'pretty_print_notebook_diff', lambda: pretty_print_notebook_diff('a.ipynb', 'b.ipynb', a, d2, cfg), {'a': a, 'diff': d2}, case2, check_alias=False)
+        guarded(ctx, 'patch_notebook', lambda: nbdime.patch_notebook(a, d2), {'nb': a, 'diff': d2}, case2, check_alias=False)
 
 
 def merge_case(ctx, B, L, R, cfg, labels):
